@@ -128,11 +128,12 @@ def gen_catalogue(seed):
         cfgs.append(cfg)
     # inputs of the items template: generated single-file worlds, valid and invalid
     items_inputs = []
-    for j in range(8):
+    for j in range(10):
         qualified = j % 2 == 1
         w = gen_world(t, "/sim/w3gen", nfiles=1, qualified=qualified, max_refs=8, vals=True)
         fe = w.files[w.main]
-        kind = ["valid", "valid", "valid", "syntax", "dangling", "ambiguous", "valid", "boom"][j]
+        kind = ["valid", "valid", "valid", "syntax", "dangling", "ambiguous", "valid", "boom", "matchboom",
+                "matchboom"][j]
         if kind == "syntax":
             ents = [e for e in w.all_ents(fe) if e.kind != "inner"]
             t.pick(ents, "syntax-at").pre_tokens = ["%"]
@@ -143,6 +144,9 @@ def gen_catalogue(seed):
             fe.tail_tokens = ["def", r.target.name]
         elif kind == "boom":
             fe.tail_tokens = ["def", "boom"]
+        elif kind == "matchboom":
+            # a match-rule processor raising in the middle of the object-graph construction, two levels deep
+            fe.tail_tokens = ["box", "mbx", "{", "box", "mby", "{", "def", "mbd", "#tboom", "}", "def", "mbe", "}"]
         w.render()
         items_inputs.append({"kind": kind, "text": fe.text, "qualified": qualified})
     mods_inputs = [{"kind": "fixed", "text": s} for s in MODS_INPUTS]
@@ -187,7 +191,13 @@ def build_metamodel(cfg):
         def defproc(o):
             if o.name == "boom":
                 raise TextXSemanticError("boom")
+
+        def tagproc(x):
+            if x == "#tboom":
+                raise TextXSemanticError("tag boom")
+            return x.upper()
         procs["Def"] = defproc
+        procs["Tag"] = tagproc
     if procs:
         mm.register_obj_processors(procs)
     return mm
